@@ -2598,21 +2598,27 @@ def bound(info, a, b):
 def lds(info, a, b):
     e = []
     e.append(ExprAff(a, ExprMem(b.arg, size = a.get_size())))
-    e.append(ExprAff(ds, ExprMem(ExprOp('+', b.arg, ExprInt_from(a, 2)),
+    # far pointer: the offset (operand size) comes first, then the selector
+    e.append(ExprAff(ds, ExprMem(ExprOp('+', b.arg,
+                                        ExprInt_from(b.arg, a.get_size()//8)),
                                  size=16)))
     return e
 
 def les(info, a, b):
     e = []
     e.append(ExprAff(a, ExprMem(b.arg, size = a.get_size())))
-    e.append(ExprAff(es, ExprMem(ExprOp('+', b.arg, ExprInt_from(a, 2)),
+    # far pointer: the offset (operand size) comes first, then the selector
+    e.append(ExprAff(es, ExprMem(ExprOp('+', b.arg,
+                                        ExprInt_from(b.arg, a.get_size()//8)),
                                  size=16)))
     return e
 
 def lss(info, a, b):
     e = []
     e.append(ExprAff(a, ExprMem(b.arg, size = a.get_size())))
-    e.append(ExprAff(ss, ExprMem(ExprOp('+', b.arg, ExprInt_from(a, 2)),
+    # far pointer: the offset (operand size) comes first, then the selector
+    e.append(ExprAff(ss, ExprMem(ExprOp('+', b.arg,
+                                        ExprInt_from(b.arg, a.get_size()//8)),
                                  size=16)))
     return e
 
